@@ -301,6 +301,7 @@ func (ms *Modules) FindModuleByNamespace(ns string) (*Module, error) {
 		return m, nil
 	}
 	var found *Module
+	var others []string // names of further modules with this namespace
 	for _, m := range ms.Modules {
 		if m.Namespace.Name == ns {
 			// Several revisions of a module are one module; the bare
@@ -311,12 +312,25 @@ func (ms *Modules) FindModuleByNamespace(ns string) (*Module, error) {
 			switch {
 			case m == found:
 			case found != nil:
-				return nil, fmt.Errorf("namespace %s matches two or more modules (%s, %s)",
-					ns, found.Name, m.Name)
+				others = append(others, m.Name)
 			default:
 				found = m
 			}
 		}
+	}
+	if len(others) > 0 {
+		// Name the same two modules whatever order the map was visited in.
+		seen := map[string]bool{found.Name: true}
+		names := []string{found.Name}
+		for _, n := range others {
+			if !seen[n] {
+				seen[n] = true
+				names = append(names, n)
+			}
+		}
+		sort.Strings(names)
+		return nil, fmt.Errorf("namespace %s matches two or more modules (%s, %s)",
+			ns, names[0], names[1])
 	}
 	if found == nil {
 		return nil, fmt.Errorf("%q: no such namespace", ns)
